@@ -50,6 +50,7 @@ def check(m, run):
     _sd0.a34s(m, run)
     sem_ok = all(o.ok for o in run.obs[n0:])
     _sd0.bf3(m, run)
+    _sd0.cp2(m, run)      # parameters are accepted exactly when they lie in the (normalised) domain: no tolerance lets an evaluation out of it
     from . import c16 as _c16r
     _c16r.rnd1(m, run)        # evenly spaced parameters / generated knots reach the end of their interval exactly (shared with C16)      # the basis values the evaluators combine are the Cox-de Boor polynomials on every span (shared with C03)
     with run.corroborating(sem_ok, 'EVX/A36S/A34S', rules=('LY1.canonical-stride', 'LY1.index-matches-layout', 'BP1.basis-axis-pairing', 'RP1.rational-projection', 'GO1.grid-order')):
